@@ -13,7 +13,7 @@
        backtracking),
    and TLC checks over all keys up to length N that names are injective on
    forks and that parsing a constructed name gives back exactly its parts. *)
-EXTENDS Integers, Sequences, FiniteSets, TLC, Json
+EXTENDS Integers, Sequences, FiniteSets, TLC, Json, SequencesExt
 
 CONSTANTS N,           \* maximal key length
           Alphabet     \* sequence of characters keys are made of
@@ -52,11 +52,18 @@ WidthFor(n) == IF n < 10 THEN 1 ELSE IF n < 100 THEN 2 ELSE IF n < 1000 THEN 3 E
 ForkDirKey(k) == S("fork_") \o KeySafe(k)
 ForkDirIdx(i) == S("fork") \o Dec(i)
 
-(* encodeJournalName: '.' and '/' may not appear in the fork part of a journal name *)
+(* encodeJournalName: '.' and '/' may not appear in the fork part of a journal name.
+   EscapePercent = FALSE is the encoding martian had: the '/' between the components of a
+   nested fork id became %2F like a '/' inside a key (already %2F in the id), so the forks
+   (a, a/fork_a) and (a/fork_a, a) shared their journal names - NestedInjective fails
+   (ForkNamesOld.cfg); found on real runs (program nest_map_map) and repaired in /repo. *)
+CONSTANT EscapePercent
 RECURSIVE JEnc(_)
 JEnc(s) == IF s = <<>> THEN <<>>
            ELSE (IF Head(s) = "." THEN <<"%", "2", "E">>
-                 ELSE IF Head(s) = "/" THEN <<"%", "2", "F">> ELSE <<Head(s)>>) \o JEnc(Tail(s))
+                 ELSE IF Head(s) = "/" THEN <<"%", "2", "F">>
+                 ELSE IF Head(s) = "%" /\ EscapePercent THEN <<"%", "2", "5">>
+                 ELSE <<Head(s)>>) \o JEnc(Tail(s))
 
 (* journal file name of a job:
    <node>.<fork>[.chnk<i>][.u<uniq>].<pre><file>   chunk < 0: none; uniq <<>>: none *)
@@ -157,12 +164,42 @@ RoundTrip ==
    names of map forks never look numeric *)
 NotNumeric == \A k \in KeySet : LET idx == Drop(JEnc(ForkDirKey(k)), 4) IN ~(\A i \in DOMAIN idx : idx[i] \in Digits)
 
+(* nested mapped calls: the fork id has one component per map-keyed dimension and one
+   per run of array dimensions, joined by "/" (fork.go ForkId.forkId); the journal name
+   encodes the whole id.  Keys here are concatenations of up to three tokens chosen to
+   make components run into each other. *)
+Tokens == << <<"a">>, <<"/">>, <<"%">>, <<"2", "F">>, <<"/", "f", "o", "r", "k", "_">>, <<".">> >>
+RECURSIVE TExt(_, _)
+TExt(ss, i) == IF i > Len(Tokens) THEN <<>>
+               ELSE [k \in DOMAIN ss |-> ss[k] \o Tokens[i]] \o TExt(ss, i + 1)
+RECURSIVE TLevel(_)
+TLevel(n) == IF n = 0 THEN << <<>> >> ELSE TExt(TLevel(n - 1), 1)
+NKeys == TLevel(0) \o TLevel(1) \o TLevel(2) \o TLevel(3)
+NKeySet == {NKeys[i] : i \in DOMAIN NKeys}
+NestDir(d1, d2) == d1 \o <<"/">> \o d2
+Components == {ForkDirKey(k) : k \in NKeySet} \cup {ForkDirIdx(i) : i \in {0, 1, 10}}
+NestedInjective ==
+    LET pairs == Components \X Components
+        dirs == {NestDir(p[1], p[2]) : p \in pairs}
+        jn == {JEnc(NestDir(p[1], p[2])) : p \in pairs}
+        single == {JEnc(c) : c \in Components}
+    IN /\ Cardinality(dirs) = Cardinality(pairs)
+       /\ Cardinality(jn) = Cardinality(pairs)
+       /\ jn \cap single = {}
+       /\ \A x \in jn : \A i \in DOMAIN x : x[i] \notin {".", "/"}
+
 ASSUME Injective
 ASSUME RoundTrip
 ASSUME NotNumeric
+ASSUME NestedInjective
 
 (* rows for the replay through the real functions *)
 KeyRows == [i \in DOMAIN Keys |-> [key |-> Keys[i], safe |-> KeySafe(Keys[i]), dir |-> ForkDirKey(Keys[i]),
                                    jfork |-> JEnc(ForkDirKey(Keys[i]))]]
 ASSUME ndJsonSerialize("forknames_keys.ndjson", KeyRows)
+NestRows == LET ks == SetToSeq({k \in NKeySet : Len(k) <= 7}) IN
+            [i \in DOMAIN ks |-> [key |-> ks[i], dir |-> ForkDirKey(ks[i]),
+                                   jpair |-> JEnc(NestDir(ForkDirKey(ks[i]), ForkDirKey(ks[((i * 7) % Len(ks)) + 1]))),
+                                   other |-> ks[((i * 7) % Len(ks)) + 1]]]
+ASSUME ndJsonSerialize("forknames_nested.ndjson", NestRows)
 ===========================================================================
